@@ -497,3 +497,7 @@ def run(ctx):
     _run_main2(ctx)
     extras2(ctx)
     ctx.flush()
+
+
+# evidence: how the model is tied to the source on every run (as built, supersedes the value above)
+TIE = 'translator (compute_a_and_b -> Gen/SdofAB*, the recurrence loop and assembly of nigam_and_jennings_response -> Gen/SdofLoop, constant -> Gen/Consts; bridges Props/C01Gen, Lemmas/SdofODE) + correspondence (all three entry points, object histories) + 40-digit reference oracle'
